@@ -57,6 +57,16 @@ def adapt_histories(n):
     return out
 
 
+def listing_histories(n):
+    """Every set partition of range(n) in every listing order of its events, as a history that declares all blocks in
+    that order (the event list then IS that order).  Counts: n=2: 3, n=3: 13, n=4: 75."""
+    out = []
+    for part in set_partitions(n):
+        for perm in itertools.permutations(part):
+            out.append([list(b) for b in perm])
+    return out
+
+
 def canonical_history(part, n):
     """A history declaring `part` (list of blocks): declare every block except the one containing scenario 0."""
     return [list(b) for b in part if 0 not in b]
